@@ -56,6 +56,89 @@ func closureBinding(parent, closure *ssa.Function, name string) string {
 	return ""
 }
 
+// closureFreeInit returns the values stored, in the parent, into the local a
+// closure's free variable is bound to (name-independent identification of
+// captured variables by what they are initialised with).
+func closureFreeInit(parent, closure *ssa.Function, freeName string) []ssa.Value {
+	var out []ssa.Value
+	for _, b := range parent.Blocks {
+		for _, in := range b.Instrs {
+			mc, ok := in.(*ssa.MakeClosure)
+			if !ok || mc.Fn != closure {
+				continue
+			}
+			for i, fv := range closure.FreeVars {
+				if fv.Name() != freeName || i >= len(mc.Bindings) {
+					continue
+				}
+				a, ok := mc.Bindings[i].(*ssa.Alloc)
+				if !ok {
+					out = append(out, mc.Bindings[i])
+					continue
+				}
+				if rs := a.Referrers(); rs != nil {
+					for _, r := range *rs {
+						if st, ok := r.(*ssa.Store); ok && st.Addr == ssa.Value(a) {
+							out = append(out, st.Val)
+						}
+					}
+				}
+			}
+		}
+	}
+	return out
+}
+
+// freeVarsWhere lists the closure's free variables whose parent-side initial
+// values satisfy pred.
+func freeVarsWhere(parent, closure *ssa.Function, pred func(v ssa.Value) bool) []string {
+	var out []string
+	for _, fv := range closure.FreeVars {
+		for _, v := range closureFreeInit(parent, closure, fv.Name()) {
+			if pred(v) {
+				out = append(out, fv.Name())
+				break
+			}
+		}
+	}
+	return out
+}
+
+// renderAddr renders a simple access path (parameter, field chain, loads).
+func renderAddr(v ssa.Value) string {
+	switch x := v.(type) {
+	case *ssa.Parameter:
+		return x.Name()
+	case *ssa.FreeVar:
+		return "free:" + x.Name()
+	case *ssa.Global:
+		return "global:" + x.Name()
+	case *ssa.UnOp:
+		return renderAddr(x.X)
+	case *ssa.FieldAddr:
+		return renderAddr(x.X) + "." + fieldName(x.X.Type(), x.Field)
+	case *ssa.Field:
+		return renderAddr(x.X) + "." + fieldName(x.X.Type(), x.Field)
+	case *ssa.Alloc:
+		// a spilled parameter
+		if rs := x.Referrers(); rs != nil {
+			for _, r := range *rs {
+				if st, ok := r.(*ssa.Store); ok && st.Addr == ssa.Value(x) {
+					if p, ok := st.Val.(*ssa.Parameter); ok {
+						return p.Name()
+					}
+				}
+			}
+		}
+		return "local:" + x.Comment
+	case *ssa.Call:
+		if callee := x.Common().StaticCallee(); callee != nil {
+			return "call:" + calleeName(callee)
+		}
+	}
+	return v.Name()
+}
+
 // C03-R1 CAPTURE-BEFORE-PROJECT.
 func ruleCaptureBeforeProject(c *Check, rule string) {
 	fn, paths := c.walkFn(rule, fnLoadTxn, WalkConfig{})
@@ -66,6 +149,11 @@ func ruleCaptureBeforeProject(c *Check, rule string) {
 	pos := c.P.Pos(fn.Pos())
 	txn := param(fn, 0)
 	n, bad := 0, 0
+	roles := loadRoles(c)
+	if !roles.ok {
+		c.Undecided(rule, fnLoadTxn+"/captured", "cannot identify the captured watermark and mode flag of the transaction body", pos)
+		return
+	}
 	var lcAtom *Atom
 	for i := range paths {
 		p := &paths[i]
@@ -82,7 +170,7 @@ func ruleCaptureBeforeProject(c *Check, rule string) {
 			unchanged := false
 			for _, cd := range p.Conds() {
 				a := cd.Atom
-				if a.Kind == "cmp" && a.A == "*free:lastTxnID" && strings.HasSuffix(a.B, " - const:1)") && strings.HasPrefix(a.B, "((*lmdb.Txn).ID@") {
+				if a.Kind == "cmp" && a.A == roles.lastTxnID && strings.HasSuffix(a.B, " - const:1)") && strings.HasPrefix(a.B, "((*lmdb.Txn).ID@") {
 					aa := a
 					lcAtom = &aa
 					if p.State.RelOf("int", a.A, a.B)&LT == 0 {
@@ -104,7 +192,7 @@ func ruleCaptureBeforeProject(c *Check, rule string) {
 	if lcAtom == nil {
 		c.Undecided(rule, fnLoadTxn+"/localChanged-definition", "the local-change test lastTxnID < txn.ID()-1 was not found in the conditions guarding the capture", pos)
 	} else {
-		b := closureBinding(parent, fn, "lastTxnID")
+		b := closureBinding(parent, fn, strings.TrimPrefix(roles.lastTxnID, "*free:"))
 		want := ""
 		if parent != nil && len(parent.Params) >= 6 {
 			want = "param:" + parent.Params[5].Name()
@@ -184,7 +272,7 @@ func ruleNativeWrites(c *Check, rule string) {
 	n, bad := 0, 0
 	for i := range paths {
 		p := &paths[i]
-		st, f := boolCond(p, "*free:schemaTracksChanges", -1)
+		st, f := boolCond(p, loadRoles(c).native, -1)
 		if !f || !st {
 			continue
 		}
@@ -650,6 +738,7 @@ func errIndex(in ssa.Instruction) int {
 func ruleErrFlow(c *Check, rule string, names ...string) {
 	for _, name := range names {
 		fn, paths := c.walkFn(rule, name, WalkConfig{})
+		name = strings.TrimPrefix(name, "?")
 		if paths == nil {
 			continue
 		}
@@ -658,8 +747,8 @@ func ruleErrFlow(c *Check, rule string, names ...string) {
 			p := &paths[i]
 			for j := range p.Events {
 				e := &p.Events[j]
-				if e.Kind != "call" || e.Defd || isLogCall(e.Callee) {
-					continue
+				if e.Kind != "call" || e.Defd || e.Inl || isLogCall(e.Callee) {
+					continue // an inlined helper's own calls are examined in place
 				}
 				k := errIndex(e.Instr)
 				if k == -1 {
